@@ -1,9 +1,11 @@
 import FsDb.Model.Sys
 /-
-  Abstract specification of fs_db's transactional key-value behaviour (C01–C03, C09, C13).
+  Abstract specification of fs_db's transactional key-value behaviour (C01–C03, C09, C13, C14).
   No version lists, no array mirror, no all-store, no garbage collection, no background work:
   a committed *history* per key that is never forgotten, and for every open transaction its level,
   its begin stamp and its own last write per key.  Short enough to audit by eye.
+
+  Stamps come from one clock that only ever advances; only their relative order is observable.
 -/
 namespace FsDb.Spec
 
@@ -25,12 +27,12 @@ structure State where
   open_ : List STx := []
   dom   : List Key := []
 
-def tick (s : State) : Nat × State := (s.clock + 1, { s with clock := s.clock + 1 })
-
 def find (s : State) (t : Nat) : Option STx := s.open_.find? (·.id = t)
 
+/-- the committed value of `k` -/
 def committed (s : State) (k : Key) : Option SVer := (s.hist k).getLast?
 
+/-- the more recent of two (on a tie the second) -/
 def newerS (a b : Option SVer) : Option SVer :=
   match a, b with
   | some x, some y => if x.stamp > y.stamp then some x else some y
@@ -63,27 +65,29 @@ def get (s : State) (t : Nat) (k : Key) : Out :=
   | none => .err .txNotFound
   | some (lvl, b, own) => outOf (visible s lvl b own k)
 
+def hasValue (v : Option SVer) : Bool :=
+  match v with
+  | some ⟨_, some _⟩ => true
+  | _ => false
+
 def getKeys (s : State) (t : Nat) : Out :=
   match ctxOf s t with
   | none => .err .txNotFound
-  | some (lvl, b, own) =>
-    .keys (Sys.sortKeys (s.dom.filter (fun k => match visible s lvl b own k with
-      | some ⟨_, some _⟩ => true
-      | _ => false)))
+  | some (lvl, b, own) => .keys (Sys.sortKeys (s.dom.filter (fun k => hasValue (visible s lvl b own k))))
 
 def addDom (s : State) (k : Key) : State := if k ∈ s.dom then s else { s with dom := s.dom ++ [k] }
 
 /-- a write (`val = none`: delete) -/
 def write (s : State) (t : Nat) (k : Key) (val : Option Nat) : State × Out :=
   if t = mainTx then
-    let (st, s) := tick s
-    (addDom { s with hist := fun k' => if k' = k then s.hist k ++ [⟨st, val⟩] else s.hist k' } k, .ok)
+    let st := s.clock + 1
+    (addDom { s with clock := st, hist := fun k' => if k' = k then s.hist k ++ [⟨st, val⟩] else s.hist k' } k, .ok)
   else
     match find s t with
     | none => (s, .err .txNotFound)
     | some _ =>
-      let (st, s) := tick s
-      (addDom { s with open_ := s.open_.map (fun tx =>
+      let st := s.clock + 1
+      (addDom { s with clock := st, open_ := s.open_.map (fun tx =>
         if tx.id = t then { tx with own := fun k' => if k' = k then some ⟨st, val⟩ else tx.own k' } else tx) } k, .ok)
 
 def set (s : State) (t : Nat) (k : Key) (c : Nat) : State × Out :=
@@ -92,9 +96,7 @@ def set (s : State) (t : Nat) (k : Key) (c : Nat) : State × Out :=
 
 def begin (s : State) (t : Nat) (lvl : Level) : State × Out :=
   if t = mainTx ∨ (find s t).isSome then (s, .bad)
-  else
-    let (st, s) := tick s
-    ({ s with open_ := s.open_ ++ [⟨t, lvl, st, fun _ => none⟩] }, .ok)
+  else ({ s with clock := s.clock + 1, open_ := s.open_ ++ [⟨t, lvl, s.clock + 1, fun _ => none⟩] }, .ok)
 
 def close (s : State) (t : Nat) : State := { s with open_ := s.open_.filter (·.id ≠ t) }
 
@@ -113,15 +115,19 @@ def commit (s : State) (t : Nat) : State × Out :=
     if conflict then (s, .err .txSerialization)
     else if written.isEmpty then (s, .ok)
     else
-      let (st, s) := tick s
-      ({ s with hist := fun k => match tx.own k with
+      let st := s.clock + 1
+      ({ s with clock := st,
+                hist := fun k => match tx.own k with
                   | some v => if k ∈ written then s.hist k ++ [⟨st, v.val⟩] else s.hist k
                   | none => s.hist k }, .ok)
 
 def rollback (s : State) (t : Nat) : State × Out := (close s t, .ok)
 
-/-- `Close`+`Open`: committed state kept, open transactions gone -/
-def reopen (s : State) : State × Out := ({ s with open_ := [] }, .ok)
+/-- `Close`+`Open`: committed state kept, open transactions gone.  In a fresh process the clock
+    restarts at the newest committed stamp (only the order of stamps is observable). -/
+def reopen (s : State) (fresh : Bool) : State × Out :=
+  let top := (s.dom.filterMap (fun k => (committed s k).map (·.stamp))).foldl max 1
+  ({ s with open_ := [], clock := if fresh then top else s.clock }, .ok)
 
 def step (s : State) : Op → State × Out
   | .begin t l => begin s t l
@@ -131,18 +137,18 @@ def step (s : State) : Op → State × Out
   | .keys t => (s, getKeys s t)
   | .commit t => commit s t
   | .rollback t => rollback s t
-  | .gc => (if s.open_.isEmpty then (tick s).2 else s, .ok)   -- invisible; only the clock may advance (the
-                                                                -- collector draws a number when nothing is open)
+  | .gc =>     -- invisible; only the clock may advance (the collector draws a number when nothing is open)
+    (if s.open_.isEmpty then { s with clock := s.clock + 1 } else s, .ok)
   | .drain => (s, .ok)
-  | .reopen _ => reopen s
+  | .reopen f => reopen s f
   | .tree =>   -- C14: at quiescence the disk holds exactly the committed value of every live key
     (s, .files ((s.dom.filterMap (fun k => (committed s k).bind (·.val))).mergeSort (· ≤ ·)))
 
 def run (s : State) : List Op → State × List Out
   | [] => (s, [])
   | op :: ops =>
-    let (s1, o) := step s op
-    let (s2, os) := run s1 ops
-    (s2, o :: os)
+    let r := step s op
+    let r2 := run r.1 ops
+    (r2.1, r.2 :: r2.2)
 
 end FsDb.Spec
